@@ -528,6 +528,8 @@ func lemma1HitDiscriminator(docNum, normBits uint64) {
 //@ assert (*Thesaurus).synonymsListFromOffset#1 : !bm64Empty(newRoaring) ==> bytesEq(row(prevTerm), off(prevTerm), len(prevTerm), row(term), off(term), len(term)) [C13]
 //@ assert (*vellum.Builder).Close#1 : bm64Empty(newRoaring) [C13]
 //@ assert newEnumerator#1 : len(termSynMap) == 0 && newSynonymID == 0 [C13]
+// an input whose thesaurus FST is empty (its iterator reports exhaustion at once) does not abort the merge
+//@ tolerates vellum.ErrIteratorDone as err from (*vellum.FST).Iterator [C13]
 // the per-thesaurus parallel slices (iterators, thesauri, deletion bitmaps, doc-number tables) are rebuilt for every
 // thesaurus and stay aligned: entry j of each belongs to the j-th input segment that has this thesaurus
 //@ loop 2 invariant len(drops) == len(itrs) && len(thesauri) == len(itrs) && len(newDocNums) == len(itrs) && len(itrs) <= $k [C13]
@@ -725,7 +727,7 @@ func lemma1HitDiscriminator(docNum, normBits uint64) {
 //@ ensures err == nil && i.normBits1Hit == 0 && old(i.freqNormReader.r.C) + old(fnRecLen1(i)) < len(i.freqNormReader.r.S) && old(fnRecWord(i)) >> 1 != 0 ==> normBits == uvVal(row(i.freqNormReader.r.S), off(i.freqNormReader.r.S) + old(i.freqNormReader.r.C) + old(fnRecLen1(i))) && i.freqNormReader.r.C == old(i.freqNormReader.r.C) + old(fnRecLen1(i)) + uvLen(row(i.freqNormReader.r.S), off(i.freqNormReader.r.S) + old(i.freqNormReader.r.C) + old(fnRecLen1(i))) [C01,C07,C09]
 //@ ensures i.freqNormReader == old(i.freqNormReader) && (i.normBits1Hit == 0 ==> i.freqNormReader.r == old(i.freqNormReader.r) && i.freqNormReader.r.S == old(i.freqNormReader.r.S))
 //@ ghostset recsRead[i] = ite(i.normBits1Hit == 0 && err == nil, old(recsRead(i)) + 1, old(recsRead(i)))
-//@ modifies memUvarintReader.C, alloc, elems(any), ghost recsRead[i]
+//@ modifies memUvarintReader.C[i.freqNormReader.r] if i.freqNormReader != nil, alloc, elems(any), ghost recsRead[i]
 //@ end
 
 //@ func (*PostingsIterator).skipFreqNormReadHasLocs returns (hasLocs, err)
@@ -738,16 +740,22 @@ func lemma1HitDiscriminator(docNum, normBits uint64) {
 //@ ensures err == nil && i.normBits1Hit == 0 && old(i.freqNormReader.r.C) + old(fnRecLen1(i)) < len(i.freqNormReader.r.S) && old(fnRecWord(i)) >> 1 != 0 ==> i.freqNormReader.r.C == old(i.freqNormReader.r.C) + old(fnRecLen1(i)) + uvLen(row(i.freqNormReader.r.S), off(i.freqNormReader.r.S) + old(i.freqNormReader.r.C) + old(fnRecLen1(i))) [C07,C09]
 //@ ensures i.freqNormReader == old(i.freqNormReader) && (i.normBits1Hit == 0 ==> i.freqNormReader.r == old(i.freqNormReader.r) && i.freqNormReader.r.S == old(i.freqNormReader.r.S))
 //@ ghostset recsRead[i] = ite(i.normBits1Hit == 0 && err == nil, old(recsRead(i)) + 1, old(recsRead(i)))
-//@ modifies memUvarintReader.C, alloc, elems(any), ghost recsRead[i]
+//@ modifies memUvarintReader.C[i.freqNormReader.r] if i.freqNormReader != nil, alloc, elems(any), ghost recsRead[i]
 //@ end
 
 //@ func (*PostingsIterator).currChunkNext returns (err)
 //@ thin
 //@ tags [C07]
 //@ requires i != nil && i.normBits1Hit == 0 && i.includeFreqNorm && i.freqNormReader != nil && (i.includeLocs ==> i.locReader != nil && i.locReader != i.freqNormReader)
-//@ wf requires i.includeLocs ==> i.locReader.r != nil && i.locReader.r.C >= 0
+//@ wf requires i.includeLocs ==> i.locReader.r != nil && i.locReader.r.C >= 0 && i.locReader.r != i.freqNormReader.r
+//@ wf requires i.freqNormReader.r != nil && i.freqNormReader.r.C >= 0 && i.freqNormReader.r.C <= 0x3fffffffffffff00
 //@ ensures err == nil ==> i.currChunk == nChunk && rdLoaded(i) [C06,C07]
 //@ ensures err == nil ==> recsRead(i) == ite(old(i.currChunk) == nChunk && old(rdLoaded(i)), old(recsRead(i)), 0) + 1 [C06,C07]
+// pairing of the two streams (no reload): skipping a record skips its location block - uvarint(length) followed by
+// that many bytes - iff the record has locations and locations are being read; otherwise the location cursor stays
+//@ pred locBlkLen(i) = uvLen(row(i.locReader.r.S), off(i.locReader.r.S) + i.locReader.r.C) + int(uvVal(row(i.locReader.r.S), off(i.locReader.r.S) + i.locReader.r.C))
+//@ ensures err == nil && i.includeLocs && old(i.currChunk) == nChunk && old(rdLoaded(i)) && old(i.freqNormReader.r.C) < len(old(i.freqNormReader.r.S)) && old(i.locReader.r.C) < len(old(i.locReader.r.S)) && old(i.locReader.r.C) <= 0x3fffffffffffff00 && old(uvVal(row(i.locReader.r.S), off(i.locReader.r.S) + i.locReader.r.C)) <= 0x3fffffffffffff00 && old(fnRecWord(i)) & 1 != 0 ==> i.locReader.r == old(i.locReader.r) && i.locReader.r.C == old(i.locReader.r.C) + old(locBlkLen(i)) [C07,C09]
+//@ ensures err == nil && i.includeLocs && old(i.currChunk) == nChunk && old(rdLoaded(i)) && old(i.freqNormReader.r.C) < len(old(i.freqNormReader.r.S)) && old(fnRecWord(i)) & 1 == 0 ==> i.locReader.r == old(i.locReader.r) && i.locReader.r.C == old(i.locReader.r.C) [C07,C09]
 //@ modifies PostingsIterator.currChunk[i], PostingsIterator.bytesRead[i], chunkedIntDecoder.curChunkBytes, chunkedIntDecoder.bytesRead, chunkedIntDecoder.r, memUvarintReader.*, alloc, elems(any), ghost recsRead[i]
 //@ end
 
@@ -898,7 +906,13 @@ func lemma1HitDiscriminator(docNum, normBits uint64) {
 //@ assume mergeAndPersistInvertedSection$2#1 : row(prevTerm) == old(row(prevTerm)) && row(term) == old(row(term))
 // the live cardinality of a term (which decides its chunk size) and its postings are taken from the same
 // dictionary with the same deletion bitmap: position idx / itrI of the per-field parallel slices
-//@ assert (*Dictionary).postingsListFromOffset#1 : $d == dicts[idx] && $except == drops[idx] && $postingsOffset == lowItrVals[i] [C06,C08]
+//@ assert (*Dictionary).postingsListFromOffset#1 : $d == dicts[idx] && $except == drops[idx] && $postingsOffset == lowItrVals[i] [C06,C08,C09]
+// the per-field parallel slices (iterators, dictionaries, deletion bitmaps, doc-number tables, segments) are rebuilt
+// for every field and stay aligned: entry j of each belongs to the j-th input segment that has this field
+//@ loop 2 invariant len(drops) == len(itrs) && len(dicts) == len(itrs) && len(newDocNums) == len(itrs) && len(segmentsInFocus) == len(itrs) && len(itrs) <= $k [C05,C06]
+//@ assert newEnumerator#1 : len(drops) == len(itrs) && len(dicts) == len(itrs) && len(newDocNums) == len(itrs) && len(segmentsInFocus) == len(itrs) [C05,C06]
+// an input whose dictionary for the field is empty (its iterator reports exhaustion at once) does not abort the merge
+//@ tolerates vellum.ErrIteratorDone as err from (*vellum.FST).Iterator [C05,C06]
 //@ assert (*Dictionary).postingsListFromOffset#2 : $d == dicts[itrI] && $except == drops[itrI] && $postingsOffset == postingsOffset [C06,C08]
 //@ loop 5 invariant chanClosed(closeCh) == old(chanClosed(closeCh))
 //@ modifies *, ghost chanClosed[closeCh], ghost bmSet, ghost itSet, ghost coderSized
@@ -1282,6 +1296,9 @@ func lemmaUvLenRange(a []byte, o int) {}
 //@ assert getChunkSize#1 : $chunkMode == io.chunkMode && $maxDocs == uint64(len(io.results)) [C01,C09]
 //@ assert getChunkSize#1 : $cardinality == ite(postingsBS != nil, uint64(sCard(bmSet(postingsBS))), 0) [C01,C09]
 //@ assert getChunkSize#2 : $chunkMode == LegacyChunkMode && $cardinality == 0 && $maxDocs == 0 [C01,C03,C09]
+// a freq/norm record is the freq/has-locations word followed by the norm exactly when the frequency is not zero
+//@ assert (*chunkedIntCoder).Add#1 : freqNorm.freq > 0 && len($vals) == 2 && $vals[0] >> 1 == freqNorm.freq & 0x7fffffffffffffff && (($vals[0] & 1 != 0) <==> freqNorm.numLocs > 0) [C06,C09]
+//@ assert (*chunkedIntCoder).Add#2 : freqNorm.freq == 0 && len($vals) == 1 && $vals[0] >> 1 == 0 && (($vals[0] & 1 != 0) <==> freqNorm.numLocs > 0) [C06,C09]
 //@ end
 
 // ---- C03 / C06: the chunked content coder (doc values) files every document under the chunk of its number ----
@@ -1382,7 +1399,7 @@ func lemmaSynonymCodeRoundTrip(synonymID, docID uint32) {
 //@ end
 
 //@ func (*Thesaurus).synonymsListInit returns (r)
-//@ tags [C11,C12]
+//@ tags [C11,C12,C13]
 //@ wf requires t != nil
 //@ ensures r != nil && r != emptySynonymsList && allzero(emptySynonymsList) [C11]
 //@ ensures (rv == nil || rv == emptySynonymsList) ==> fresh(r) && r.synonyms == nil
@@ -1425,7 +1442,7 @@ func lemmaSynonymCodeRoundTrip(synonymID, docID uint32) {
 //@ wf requires t != nil && t.sb != nil
 //@ ensures err == nil ==> r != nil && r != emptySynonymsList [C12]
 //@ ensures err == nil ==> r.synonyms != nil [C12]
-//@ ensures err == nil ==> r.except == except [C12]
+//@ ensures err == nil ==> r.except == except [C12,C13]
 //@ end
 
 //@ func (*SynonymsList).iterator returns (it)
@@ -1484,6 +1501,10 @@ func lemmaSynonymCodeRoundTrip(synonymID, docID uint32) {
 // array positions (locXOf: the getters' values as functions of the location object)
 //@ assert totalUvarintBytes#1 : $a == uint64(uint16(mapget(fieldsMap, locFieldOf(payload(loc))) - 1)) && $b == locPosOf(payload(loc)) && $c == locStartOf(payload(loc)) && $d == locEndOf(payload(loc)) && int($e) == locNapOf(payload(loc)) && len($more) == locNapOf(payload(loc)) [C06,C09]
 //@ assert (*chunkedIntCoder).Add#4 : len($vals) == 5 + locNapOf(payload(loc)) && $vals[0] == uint64(uint16(mapget(fieldsMap, locFieldOf(payload(loc))) - 1)) && $vals[1] == locPosOf(payload(loc)) && $vals[2] == locStartOf(payload(loc)) && $vals[3] == locEndOf(payload(loc)) && int($vals[4]) == locNapOf(payload(loc)) [C06,C09]
+// a freq/norm record is the freq/has-locations word followed by the norm exactly when the frequency is not zero
+// (the rule readFreqNormHasLocs / skipFreqNormReadHasLocs decode by)
+//@ assert (*chunkedIntCoder).Add#1 : nextFreq > 0 && len($vals) == 2 && $vals[1] == nextNorm && $vals[0] >> 1 == nextFreq & 0x7fffffffffffffff && (($vals[0] & 1 != 0) <==> len(locs) > 0) [C06,C09]
+//@ assert (*chunkedIntCoder).Add#2 : nextFreq == 0 && len($vals) == 1 && $vals[0] >> 1 == 0 && (($vals[0] & 1 != 0) <==> len(locs) > 0) [C06,C09]
 //@ ensures coderSized(tfEncoder) && coderSized(locEncoder)
 //@ modifies *, ghost bmSet, ghost itSet
 //@ end
@@ -1523,6 +1544,14 @@ func lemmaSynonymCodeRoundTrip(synonymID, docID uint32) {
 //@ thin
 //@ tags [C03,C04]
 //@ assert (*Segment).loadDvReader#1 : $fieldID == $k [C03,C04]
+//@ end
+
+// loading one field's doc-value reader fails only when decoding its block bounds or loading the block fails (the caller
+// drops that error, so any other rejection would silently lose the field's doc values on re-open)
+//@ func (*Segment).loadDvReader returns (err)
+//@ thin
+//@ tags [C03,C04]
+//@ failsonly err from (*Segment).getSectionDvOffsets, (*SegmentBase).loadFieldDocValueReader [C03,C04]
 //@ end
 
 // ---- C03: doc values ----
@@ -1727,16 +1756,17 @@ func lemmaSynonymCodeRoundTrip(synonymID, docID uint32) {
 //@ ensures d.fst != nil ==> n == fstLen(d.fst)
 //@ end
 
+// lock balance of the thesaurus cache is also what closeActual's precondition (cache lock free) rests on: C20
 //@ func (*synonymIndexCache).loadOrCreate returns (fst, m, err)
 //@ thin
-//@ tags [C11,C12]
+//@ tags [C11,C12,C20]
 //@ requires sc != nil && muHeld(sc.m) == 0
 //@ ensures muHeld(sc.m) == 0
 //@ end
 
 //@ func (*synonymIndexCache).createAndCacheLOCKED returns (f, m, e)
 //@ thin
-//@ tags [C11,C12]
+//@ tags [C11,C12,C20]
 //@ requires sc != nil && muHeld(sc.m) == 2
 //@ ensures muHeld(sc.m) == 2
 // the loader rejects a thesaurus only for an empty or unreadable FST or an empty synonym table; every
